@@ -94,20 +94,20 @@ def run_case(case: dict) -> dict:
             os.makedirs(os.path.join(d, "sub"))
             for i, doc in enumerate(docs):
                 p = os.path.join(d, "sub" if i % 2 else "", f"f{i}.json")
-                with open(p, "w") as fh:
-                    json.dump(doc, fh, indent=case.get("indent"))
+                with open(p, "w", encoding="utf-8") as fh:
+                    json.dump(doc, fh, indent=case.get("indent"), ensure_ascii=case["ascii"])
             cfg["dirpath"] = d
         elif mode == "per-line":
             p = os.path.join(wd, "lines.json")
-            with open(p, "w") as fh:
+            with open(p, "w", encoding="utf-8") as fh:
                 for doc in docs:
-                    fh.write(json.dumps(doc) + "\n")
+                    fh.write(json.dumps(doc, ensure_ascii=case["ascii"]) + "\n")
             cfg["filepath"] = p
             cfg["json_per_line"] = True
         else:
             p = os.path.join(wd, "whole.json")
-            with open(p, "w") as fh:
-                json.dump(docs[0], fh, indent=case.get("indent"))
+            with open(p, "w", encoding="utf-8") as fh:
+                json.dump(docs[0], fh, indent=case.get("indent"), ensure_ascii=case["ascii"])
             cfg["filepath"] = p
         try:
             ds = JSONDataSource(JSONDataSourceConfig(**cfg))
@@ -159,7 +159,7 @@ def workload(tier: str, seed: int) -> tuple[list[dict], dict]:
         if refmap.kv_sibling_unfollowable(docs, mp):
             tags.add("kv-sibling-unfollowable")
         cases.append({"kind": "random", "name": f"m{i}", "mapping": mp, "docs": docs, "spec": spec,
-                      "mode": mode, "indent": rng.choice([None, None, 2]) if mode != "per-line"
+                      "mode": mode, "ascii": rng.random() < 0.5, "indent": rng.choice([None, None, 2]) if mode != "per-line"
                       else None, "tags": sorted(tags), "work_dir": wd})
         stats[mode] += 1
         stats["hostile" if hostile else "plain"] += 1
@@ -175,7 +175,8 @@ def main(tier: str, seed: int) -> int:
              "concatenation of 1-3 parts and priority fall-backs, written in the documented "
              "YAML spellings; documents with 0-3 elements per level, missing keys, null and "
              "empty arrays, attribute arrays with missing members, numbers vs strings, invalid "
-             "timestamps; 35% hostile (shape confusion, booleans, duplicate keys); modes "
+             "timestamps, values with surrounding blanks and U+2028/U+2029/U+0085 inside (files "
+             "written with and without \\u escapes); 30% hostile (shape confusion, booleans, duplicate keys); modes "
              "whole-file / one-JSON-per-line / directory; plus the documentation's own examples "
              "verbatim. distinct = distinct case digest; trivial = reference yields no record")
     chk.assumptions = [
